@@ -12,7 +12,7 @@ CLAIMS = {
          "NOT covered (trusted A-GLUE): the fan-out of publish_messages to every attached subscription (async move + JoinSet), FIFO mailboxes, races between publish and create/delete, liveness of redelivery (needs the timer and a consumer). Messages::append is an assumed contract (Iterator::size_hint cannot be specified in Verus), cross-checked bounded. The clause 'every handed-out message is tracked as outstanding' of pull_messages carries C01/C04 (a message held nowhere can never be redelivered)."),
  "C02": ("proof",
          "Proved: OutstandingMessageTracker::remove and SubscriptionActor::acknowledge_messages remove exactly the named live leases from both tracker structures (representation invariant wf), leave backlog, counter and every other lease unchanged, unknown/stale/repeated ids are no-ops; the two unsafe unwrap_unchecked in take_expired are discharged from wf (no stale expiry key can resurrect an acked message); ack-id parsing is total.",
-         "The unary Acknowledge handler (async fn, whole body, bundle B2) is under contract: OK means the subscription the name denotes was handed exactly the request's ack ids in order; a malformed ack id or name is INVALID_ARGUMENT, an absent name NOT_FOUND. Trusted: that the handle forwards to the actor and that streaming acks reach the handler (async glue), other subscriptions' copies live in other actor values (Rust ownership), derived Ord/Hash of AckId/AckDeadline (A-DERIVE, validated by Kani), BTreeSet::first/pop_first specs."),
+         "The unary Acknowledge handler (async fn, whole body, bundle B2) is under contract: OK means the subscription the name denotes was handed exactly the request's ack ids in order; a malformed ack id or name is INVALID_ARGUMENT, an absent name NOT_FOUND. The Subscription handle methods (pull / post / acknowledge / modify / delete; async, bundle B1) are under contract: OK means exactly that request with the caller's arguments was put into the actor's mailbox. Trusted: the mailbox itself (tokio mpsc / oneshot), what awaiting the reply yields, and that streaming acks reach the handler (async glue), other subscriptions' copies live in other actor values (Rust ownership), derived Ord/Hash of AckId/AckDeadline (A-DERIVE, validated by Kani), BTreeSet::first/pop_first specs."),
  "C03": ("proof",
          "Proved: pull_messages moves the first n backlog messages into the lease table within one actor turn, with fresh consecutive ack ids (all ids in use are below the counter, the counter strictly increases); the only exits from the lease table are ack, modify(None), expiry with deadline <= now and delete.",
          "Trusted: one actor task drains the mailbox, so turns do not interleave (tokio mpsc + single task, A-GLUE); fewer than 2^64 deliveries per subscription (A-ARITH)."),
